@@ -117,12 +117,15 @@ def build(net, description="vv generated", with_metadata=True):
         n = b.CreateString(t.name)
         sh = None if t.no_shape else _vec(b, Tensor.TensorStartShapeVector, t.shape, b.PrependInt32)
         q = None
-        if t.scale is not None:
-            sc = _vec(b, QP.QuantizationParametersStartScaleVector, [float(s) for s in t.scale], b.PrependFloat32)
-            z = _vec(b, QP.QuantizationParametersStartZeroPointVector, [int(v) for v in (t.zp or [])], b.PrependInt64)
+        omit = getattr(t, "omit", None)  # "zp" / "scale": that vector is absent from the table (both are optional fields of the schema)
+        if t.scale is not None or (omit == "scale" and t.zp is not None):
+            sc = _vec(b, QP.QuantizationParametersStartScaleVector, [float(s) for s in t.scale], b.PrependFloat32) if omit != "scale" else None
+            z = _vec(b, QP.QuantizationParametersStartZeroPointVector, [int(v) for v in (t.zp or [])], b.PrependInt64) if omit != "zp" else None
             QP.QuantizationParametersStart(b)
-            QP.QuantizationParametersAddScale(b, sc)
-            QP.QuantizationParametersAddZeroPoint(b, z)
+            if sc is not None:
+                QP.QuantizationParametersAddScale(b, sc)
+            if z is not None:
+                QP.QuantizationParametersAddZeroPoint(b, z)
             QP.QuantizationParametersAddQuantizedDimension(b, t.qdim)
             q = QP.QuantizationParametersEnd(b)
         Tensor.TensorStart(b)
